@@ -44,7 +44,6 @@ func c01Model_DBLookup(db *compactindexsized.DB, key []byte) ([]byte, error) {
 	return nil, compactindexsized.ErrNotFound
 }
 
-
 // C01.codec (cid → offset,size) — for every 64-bit offset and size the real writer either
 // rejects the pair or hands the index a 9-byte value from which the real reader decodes exactly
 // (offset, size); it rejects only pairs that do not fit 48/24 bits.
